@@ -218,18 +218,62 @@ func ruleTokenCID(c *Ctx) {
 		fCID := p.Field("codec.Request.CID")
 		fToken := p.Field("codec.Request.Token")
 		okCID, okTok := false, false
+		// the literal may be built in a helper (newRequest(r, params, query, token, isHTTP)): what the helper
+		// stores from its own parameters comes from this function's parameters at the helper's call sites
+		scope := map[*ssa.Function]bool{fn: true}
+		for _, g := range staticCallees(p, fn) {
+			scope[g] = true
+		}
+		fromParam := func(v ssa.Value, g *ssa.Function, wantName string) bool {
+			prm, isP := v.(*ssa.Parameter)
+			if !isP {
+				return false
+			}
+			if g == fn {
+				return wantName == "" || prm.Name() == wantName
+			}
+			idx := -1
+			for i, pp := range g.Params {
+				if pp == prm {
+					idx = i
+				}
+			}
+			if idx < 0 {
+				return false
+			}
+			n := 0
+			for _, call := range callsIn(fn) {
+				if call.Common().StaticCallee() != g {
+					continue
+				}
+				n++
+				args := callArgs(call.Common())
+				if idx >= len(args) {
+					return false
+				}
+				av := stripConv(args[idx])
+				if ci, isCI := av.(*ssa.ChangeInterface); isCI {
+					av = ci.X // an AuthRequester handed on as the Requester it embeds
+				}
+				ap, isAP := av.(*ssa.Parameter)
+				if !isAP || (wantName != "" && ap.Name() != wantName) {
+					return false
+				}
+			}
+			return n > 0
+		}
 		for _, st := range p.stores[fCID] {
-			if st.Parent() == fn {
+			if scope[st.Parent()] {
 				if call, ok := st.Val.(*ssa.Call); ok && call.Call.IsInvoke() && call.Call.Method.Name() == "CID" {
-					if _, isP := call.Call.Value.(*ssa.Parameter); isP {
+					if fromParam(call.Call.Value, st.Parent(), "") {
 						okCID = true
 					}
 				}
 			}
 		}
 		for _, st := range p.stores[fToken] {
-			if st.Parent() == fn {
-				if prm, ok := st.Val.(*ssa.Parameter); ok && prm.Name() == "token" {
+			if scope[st.Parent()] {
+				if fromParam(st.Val, st.Parent(), "token") {
 					okTok = true
 				}
 			}
